@@ -45,8 +45,9 @@ func verifyAuthorizedKeys(user *user.User, authorizedKeysBytes []byte,
 	for len(authorizedKeysBytes) > 0 {
 		authorizedPubKey, _, _, restBytes, err := gossh.ParseAuthorizedKey(authorizedKeysBytes)
 		if err != nil {
-			return nil, fmt.Errorf("unable to parse authorized keys bytes|%s|%s",
-				user, err.Error())
+			// No (more) keys found, e.g. only comments or blank lines are left.
+			dlog.Server.Debug(user, "Done parsing authorized keys", err)
+			break
 		}
 		authorizedKeysMap[string(authorizedPubKey.Marshal())] = true
 		authorizedKeysBytes = restBytes
